@@ -337,3 +337,35 @@ func TestMapShim(t *testing.T) {
 		t.Errorf("both threads must be able to win the LoadOrStore: %v", o)
 	}
 }
+
+// like the real RWMutex, readers queue behind a pending writer: a recursive read lock deadlocks in the schedules where a
+// writer arrives between the two RLock calls - and only in those
+func TestRecursiveReadLockDeadlocksBehindWriter(t *testing.T) {
+	mk := func(withWriter bool) func() ([]func(), func() string) {
+		return func() ([]func(), func() string) {
+			var m RWMutex
+			reader := func() {
+				m.RLock()
+				Yield()
+				m.RLock()
+				m.RUnlock()
+				m.RUnlock()
+			}
+			bodies := []func(){reader}
+			if withWriter {
+				bodies = append(bodies, func() { m.Lock(); m.Unlock() })
+			} else {
+				bodies = append(bodies, reader)
+			}
+			return bodies, func() string { return "done" }
+		}
+	}
+	execs, o, dl := explore(2, mk(true))
+	if dl == 0 || o["done"] == 0 {
+		t.Errorf("reader+writer: %d deadlocks, outcomes %v in %d executions (want some of each)", dl, o, execs)
+	}
+	_, _, dl = explore(2, mk(false))
+	if dl != 0 {
+		t.Errorf("two recursive readers without a writer: %d deadlocks", dl)
+	}
+}
